@@ -50,6 +50,9 @@ class DateTime(Parseable[datetime]):
 
     def __bytes__(self) -> bytes:
         if self._raw is None:
-            raw_str = self.value.strftime('%d-%b-%Y %X %z')
+            when = self.value
+            # %Y is not zero-padded to 4 digits on all platforms
+            raw_str = when.strftime('%d-%b-') + '%04d' % when.year \
+                + when.strftime(' %X %z')
             self._raw = bytes(raw_str, 'ascii')
         return BytesFormat(b'"%b"') % (self._raw, )
